@@ -46,7 +46,9 @@ def showSeen (insSpec : List (List (Var × Bool))) (cyc : List (List Nat)) : Str
   "/".intercalate ((insSpec.zip cyc).map fun (spec, vals) =>
     ",".intercalate ((spec.zip vals).map fun (x, v) => toString (view x v)))
 
-def step (j : Json) : Option String := do
+/-- one run of the group (`start()` on a group whose earlier runs left `prev`): layout, assembled packet and bus events of
+that run; returns the state at its end, the input formats and whether the layout hypothesis holds -/
+def runOne (prev : St) (j : Json) : Option (St × List (List (Var × Bool)) × Bool) := do
   let asm ← fBytes j "asm"
   let counters ← (← fArr j "counters").mapM fun c => do
     match ← jArr c with
@@ -55,7 +57,7 @@ def step (j : Json) : Option String := do
   let devs ← (← fArr j "devs").mapM parseDev
   let cfg : Cfg := { counters := counters, devs := devs.map (·.1) }
   let insSpec := devs.map (·.2)
-  let mut st := init asm
+  let mut st := restart prev asm
   for e in ← fArr j "events" do
     match ← jArr e with
     | [_] => st := SlowCycle.step cfg st .timeout
@@ -67,8 +69,20 @@ def step (j : Json) : Option String := do
       let lastSent := st.sent.getLast?.getD []
       st := SlowCycle.step cfg st (.resp (applyPatches lastSent patches))
     | _ => none
+  pure (st, insSpec, decide (Layout cfg asm.length))
+
+def step (j : Json) : Option String := do
+  -- the earlier runs of the same group object (`earlier`, oldest first), then the run that is reported
+  let mut prev := init []
+  match field j "earlier" with
+  | some e =>
+    if !e.isNull then
+      for r in ← jArr e do
+        prev := (← runOne prev r).1
+  | none => pure ()
+  let (st, insSpec, lay) ← runOne prev j
   pure (joinSp (st.sent.map hexOfBytes) ++ " | " ++ ";".intercalate (st.seen.map (showSeen insSpec))
         ++ " | " ++ toString st.errors ++ " | " ++ toString st.missed
-        ++ " | layout=" ++ (if decide (Layout cfg asm.length) then "1" else "0"))
+        ++ " | layout=" ++ (if lay then "1" else "0"))
 
 def main : IO Unit := driverMain step
